@@ -38,7 +38,7 @@ def main():
     demo = os.path.join(src, "demo%s.c" % suffix)
     bld = os.path.join(src, "build-demo%s.sh" % suffix)
     meta = os.path.join(src, "meta%s.json" % suffix)
-    letter = "abcdefghijklmnop"[(int(suffix) - 1 if suffix else 0) + offset]
+    letter = "abcdefghijklmnopqrstuvwxyz"[(int(suffix) - 1 if suffix else 0) + offset]
     sid = "%s%s" % (pid, letter)
     dest = os.path.join(VERIF, "seeded", sid)
     if not os.path.exists(patch) and os.path.exists(os.path.join(dest, "patch.diff")):
